@@ -693,10 +693,24 @@ func (c *Ctx) ruleSkipShape() {
 	}
 	name := FuncName(fn)
 	fileD := P.Desc(fn.Params[2])
+	adjusted := ""
 	isFilename := func(v ssa.Value) bool {
 		d := P.Desc(v)
-		return strings.HasPrefix(d, "field(call((*go/token.FileSet).Position; ") && strings.Contains(d, "call((*go/ast.File).Pos; "+fileD+")") && strings.HasSuffix(d, "go/token.Position.Filename)")
+		if !(strings.HasPrefix(d, "field(call((*go/token.FileSet).Position") && strings.Contains(d, "call((*go/ast.File).Pos; "+fileD+")") && strings.HasSuffix(d, "go/token.Position.Filename)")) {
+			return false
+		}
+		if !c.unadjustedPosition(v) {
+			adjusted = P.Pos(v.Pos())
+		}
+		return true
 	}
+	defer func() {
+		if c.Prop == "C18" {
+			return // C18 is about where the values come from, not about which name they are applied to
+		}
+		c.check(adjusted == "", "SKIP-SHAPE/OWN-NAME", name, adjusted, "the name tested is the file's own (PositionFor(file.Pos(), false).Filename)",
+			"the exclusion is decided on FileSet.Position(file.Pos()).Filename, which a //line directive before the package clause replaces: a file can rename itself into (or out of) an excluded path or a _test.go name")
+	}()
 	isExcl := func(l Lit) bool {
 		call := P.litCallTo(l, "strings.Contains")
 		if call == nil {
@@ -801,3 +815,42 @@ func allSubs(l Lit, pred func(Lit) bool) bool {
 }
 
 func (c *Ctx) ruleIterOne(fn *ssa.Function) {}
+
+// unadjustedPosition: every origin of v (a field of a token.Position) is read from
+// FileSet.PositionFor(p, false): the position is not subject to //line directives.
+func (c *Ctx) unadjustedPosition(v ssa.Value) bool {
+	P := c.P
+	return P.RootsAll(v, func(r ssa.Value) bool {
+		var bb ssa.Value
+		for _, f := range []string{"Filename", "Line", "Column", "Offset"} {
+			if b := fieldLoad(r, "go/token.Position", f); b != nil {
+				bb = b
+			}
+		}
+		if bb == nil {
+			return false
+		}
+		isFor := func(q ssa.Value) bool {
+			pc := P.CallTo(q, "(*go/token.FileSet).PositionFor")
+			if pc == nil {
+				return false
+			}
+			cv, isC := constBool(pc.Call.Args[2])
+			return isC && !cv
+		}
+		if a, ok := bb.(*ssa.Alloc); ok {
+			// position := fset.PositionFor(...): a local struct cell
+			vals, _, escaped := P.CellStores(a)
+			if escaped || len(vals) == 0 {
+				return false
+			}
+			for _, v := range vals {
+				if !P.RootsAll(v, isFor) {
+					return false
+				}
+			}
+			return true
+		}
+		return P.RootsAll(bb, isFor)
+	})
+}
